@@ -51,11 +51,11 @@ var props = map[string]propCfg{
 		Rule:      "one run = one middleware instance (Validator strict/non-strict with default or custom ErrFunc/LogFunc, or ValidationHandler.ServeHTTP/Middleware) over a seeded document-family member and a history of 1-4 requests (routable or not, valid or invalid by construction, body delivered by a chunk plan with optional mid-body fault) each answered by a scripted handler (call-sequence shape drawn from: silent, status-only, write-only, pieces, multi-status, write-then-status, informational-first, flush variants) observed by a net/http-faithful client writer with optional write fault. A run is non-trivial when it has at least one request; distinct = distinct (mode, ErrFunc, document member, router, history length, handler-shape sequence, auth behaviour, multi-error) tuples.",
 		DesignRef: "§3 SIM-MW",
 		Reach:     []string{"expect-404", "expect-400", "expect-pass", "strict-500", "strict-pass", "pass-through", "fault-seen-by-validator", "shape-silent", "shape-status-only", "shape-write-only", "shape-write-then-status", "shape-multi-status", "shape-status-pieces", "shape-informational-first", "shape-flush-first", "shape-status-write-flush", "handler_abort", "client_write_err", "reqbody_eio", "reqbody_reset", "reqbody_unexpected_eof"}},
-	"C15": {Sim: "conc", Race: true, Quick: tierCfg{Runs: 4800, Workers: 16, Budget: 300 * time.Second, Seeds: 1},
+	"C15": {Sim: "conc", Race: true, Quick: tierCfg{Runs: 9600, Workers: 16, Budget: 300 * time.Second, Seeds: 1},
 		Thorough:  tierCfg{Runs: 120000, Workers: 16, Budget: 18 * time.Minute, Seeds: 5},
 		Rule:      "one run = 2-6 caller goroutines with 1-4 library calls each (FindRoute on both routers, ValidateRequest over JSON/form/multipart/text bodies with defaults on/off, multi-error, custom regex compilers, reading auth callbacks; ValidateResponse; Schema.VisitJSON/IsMatching in every mode; strict and non-strict middleware ServeHTTP; openapi3gen.NewSchemaRefForValue on compiled-in and per-run reflect.StructOf types) sharing one loaded+validated document (patterns carry the run marker: cold caches), both routers and two middleware instances, executed in a -race build under the zzsimrt scheduler with a seeded policy (serial, uniform-random switch probability 1/3..1/1000, biased towards sites touching shared state, PCT depth 1-3, round-robin quantum 1..1000) and sorted or seeded-permuted map iteration. Oracles: A no race report with a kin-openapi frame in both stacks / no runtime fatal; B every call's verdict (accepted / rejected by which part; for accepted calls also the forwarded request, value or body the caller gets back) equals the same call alone on a fresh document; C no deadlock on library locks, all calls return within the step cap; D the shared document serialises identically before and after. Non-trivial = at least one context switch happened inside library code; distinct = distinct (caller op-kind multiset, hash of the switch sequence projected to (from-site, to-site)) pairs; distinct_cover_items = distinct (site where one caller was stopped, site where the next one resumed) pairs over all context switches inside library code.",
 		DesignRef: "§3 SIM-CONC",
-		Reach:     []string{"switch-inside-library", "calls-overlapped", "lock-contention", "map-order-permuted", "patterns-cold-at-start", "first-use-in-process", "callback-crash-inside-call", "policy-random", "policy-biased", "policy-pct", "policy-rr", "policy-serial"}},
+		Reach:     []string{"accepted-vreq-GET", "accepted-vreq-PUT", "accepted-vreq-POST", "rejected-vreq-GET", "accepted-vresp", "accepted-visit", "accepted-find", "accepted-mw", "accepted-gen", "accepted-load", "switch-inside-library", "calls-overlapped", "lock-contention", "map-order-permuted", "patterns-cold-at-start", "first-use-in-process", "callback-crash-inside-call", "policy-random", "policy-biased", "policy-pct", "policy-rr", "policy-serial"}},
 	"C11": {Sim: "loader", Quick: tierCfg{Runs: 40000, Workers: 16, Budget: 180 * time.Second, Seeds: 1},
 		Thorough:  tierCfg{Runs: 700000, Workers: 16, Budget: 9 * time.Minute, Seeds: 5},
 		Rule:      "one run = one or two loads (fresh or reused Loader) of a generated multi-file layout in the simulated storage: root at one of {in-memory data, io.Reader, data+absolute path, data+http URL, relative file, absolute file, file:// URL, http, https}, 0-5 further documents (whole OpenAPI documents, bare single elements of each of the ten kinds, free-form JSON with fragments) in nested directories and on a second host, references of all ten resolver kinds planted at visited and unvisited positions in whole-file, fragment and missing-fragment form with chains/diamonds/cycles, canary references (parent escapes, absolute paths, http(s) and scheme-relative URLs), both switch settings, custom ReadFromURIFunc or the default reader (simulated os.ReadFile + RoundTripper), read faults. Invariant at every read event: switch off => the root location only (none at all for in-memory roots); switch on => location in the justified set J, and (custom reader) some already-delivered document refers to it. Non-trivial = the layout holds at least one reference; distinct = distinct (root form, reader, switch, reuse, file kinds, number of reads, faults) tuples.",
